@@ -1,4 +1,6 @@
 SPECIFICATION TraceSpec
 CONSTANTS Keys = {1}
+  StaleMode = "poison"
+  BugStaleLinks = FALSE
 INVARIANTS NoDrift
 POSTCONDITION AllConsumed
